@@ -38,7 +38,8 @@ Definition kind_is_kj (k : kind) : bool := match k with KJ => true | _ => false 
 Definition kind_is_kp (k : kind) : bool := match k with KP => true | _ => false end.
 Record sem := mkSem { selJ : colset -> selector; selP : selector }.
 Definition model_sem : sem :=
-  mkSem (fun cs tn col _ => mem2 tn col cs)
+  (* since 4bbab2a (_holds_junction_label): valve.element of a valve with et == "pi" is no junction reference *)
+  mkSem (fun cs tn col k => mem2 tn col cs && negb (String.eqb tn "valve" && String.eqb col "element" && kind_is_kp k))
         (fun tn col k => String.eqb tn "valve" && String.eqb col "element" && kind_is_kp k).
 Definition spec_sem : sem := mkSem (fun _ _ _ k => kind_is_kj k) (fun _ _ k => kind_is_kp k).
 
@@ -144,12 +145,14 @@ Definition keep_row (sel : string -> cell -> bool) (js : list Z) (tn : string) (
 Definition kept_labels (sel : string -> cell -> bool) (js : list Z) (n : net) (e : string) : list Z :=
   flat_map (fun t => if String.eqb (t_name t) e
                      then map r_label (filter (keep_row sel js (t_name t)) (t_rows t)) else []) n.
-Definition select (sel : string -> cell -> bool) (js : list Z) (n : net) : net :=
+(* since 4bbab2a rows with a selected pipe reference (pi valves) follow their pipe *)
+Definition select (sel selp : string -> cell -> bool) (js : list Z) (n : net) : net :=
   filter_rows (fun tn r =>
     if String.eqb tn "junction" || String.eqb tn "junction_geodata" then memz (r_label r) js
     else if String.eqb tn "pipe_geodata" then memz (r_label r) (kept_labels sel js n "pipe")
     else if prefix "res_" tn then false
-    else keep_row sel js tn r) n.
+    else keep_row sel js tn r &&
+         forallb (fun c => negb (selp tn c) || memz (c_val c) (kept_labels sel js n "pipe")) (r_cells r)) n.
 
 (* ---- the operations of the property ---- *)
 Inductive op :=
@@ -170,7 +173,7 @@ Definition step (s : sem) (o : op) (n : net) : net :=
   | ContElem cs e start => cont_elem s cs e start n
   | ContAll cs order start => cont_all s cs order start n
   | Fuse cs j1 js => drop_labels (fam "junction") (others j1 js) (redirect (on_cell (selJ s cs)) j1 (others j1 js) n)
-  | Select cs js => select (on_cell (selJ s cs)) js n
+  | Select cs js => select (on_cell (selJ s cs)) (on_cell (selP s)) js n
   | DropJ cs js cascade =>
       let n1 := drop_labels (fam "junction") js n in
       if cascade then drop_elems_full (on_cell (selJ s cs)) (on_cell (selP s)) js n1 else n1
@@ -206,7 +209,7 @@ Definition ri_pb (n : net) : bool :=
   cells_ok (fun _ c => negb (is_kp c) || memz (c_val c) (labels_of "pipe" n)) n.
 (* the tuple set is exactly the set of junction reference columns of this net *)
 Definition exact_b (cs : colset) (n : net) : bool :=
-  cells_ok (fun tn c => Bool.eqb (mem2 tn (c_col c) cs) (is_kj c)) n.
+  cells_ok (fun tn c => Bool.eqb (on_cell (selJ model_sem cs) tn c) (is_kj c)) n.
 (* pipe references live in valve.element only *)
 Definition pexact_b (n : net) : bool :=
   cells_ok (fun tn c => negb (is_kp c) || (String.eqb tn "valve" && String.eqb (c_col c) "element")) n.
